@@ -7,7 +7,9 @@ use crate::engine::tape::{self, Cfg, Outcome, MENU4, MENU8};
 use crate::subject::prep::{pops_of, rd_tpop, run_component, state_with, tagged_pops, tpop, TInd};
 use crate::subject::problems::TagP;
 use mahf::components::selection as sel;
-use mahf::Component;
+use crate::engine::util::catch;
+use crate::subject::problems::so;
+use mahf::{Component, Individual};
 use rayon::prelude::*;
 use serde_json::{json, Value};
 use std::sync::Mutex;
@@ -422,6 +424,81 @@ fn check_large(which: usize, n: usize, k: u32, seed: u64) -> Option<(String, Str
     None
 }
 
+
+/// The building blocks of the proportional and rank selections (public functions of `selection::functional`) on a population
+/// of `n` individuals whose minimum sits at `pmin` and whose maximum (`inf`: an infinite one) at `pmax`; everything else in between.
+fn check_functional(n: usize, pmin: usize, pmax: usize, inf: bool, layout: u8) -> Option<(String, String)> {
+    use mahf::components::selection::functional as f;
+    let mid = |i: usize| -> f64 {
+        match layout {
+            0 => 10.0 + ((i * 7919) % n) as f64 * 0.5,                 // all distinct, scattered
+            1 => 10.0 + (i % 7) as f64,                                 // many ties
+            _ => 10.0 + (n - i) as f64 * 0.25,                          // descending ramp
+        }
+    };
+    let top = 20.0 + n as f64;
+    let vals: Vec<f64> = (0..n).map(|i| if i == pmin { -3.5 } else if i == pmax { if inf { f64::INFINITY } else { top } } else { mid(i) }).collect();
+    let pop: Vec<Individual<TagP>> = vals.iter().enumerate().map(|(i, v)| Individual::new(i as u32, so(*v))).collect();
+    let head = format!("C11 functional n={}", if n > 65535 { ">65535" } else if n > 4096 { ">4096" } else { "<=4096" });
+    let ctx = |w: String| format!("{} individuals, minimum -3.5 at position {}, maximum {} at position {}, layout {}: {}", n, pmin, if inf { "+inf".to_string() } else { top.to_string() }, pmax, layout, w);
+    let r = catch(|| -> Option<(String, String)> {
+        let want_max = if pmax < n { if inf { f64::INFINITY } else { top } } else { vals.iter().cloned().fold(f64::MIN, f64::max) };
+        let want_min = if pmin < n { -3.5 } else { vals.iter().cloned().fold(f64::MAX, f64::min) };
+        match f::objective_bounds(&pop) {
+            Some((mx, mn)) if mx == want_max && mn == want_min => {}
+            other => return Some((format!("{} objective_bounds", head), ctx(format!("objective_bounds = {:?}, expected (max, min) = ({}, {})", other, want_max, want_min)))),
+        }
+        for normalize in [false, true] {
+            let w = f::proportional_weights(&pop, 0.1, normalize);
+            if want_max.is_infinite() {
+                if w.is_some() {
+                    return Some((format!("{} proportional_weights infinite-objective-accepted", head), ctx("weights were returned although an objective value is infinite".into())));
+                }
+                continue;
+            }
+            let w = match w {
+                Some(w) if w.len() == n => w,
+                other => return Some((format!("{} proportional_weights shape", head), ctx(format!("{:?} weights", other.map(|w| w.len()))))),
+            };
+            let floor = if normalize { 0.0 } else { 0.1 };
+            if let Some(i) = (0..n).find(|&i| !(w[i].is_finite() && w[i] >= floor)) {
+                return Some((format!("{} proportional_weights below-offset", head), ctx(format!("weight {} of individual {} (objective {})", w[i], i, vals[i]))));
+            }
+            // lower objective value => greater weight (compared through the sorted order)
+            let mut ix: Vec<usize> = (0..n).collect();
+            ix.sort_by(|a, b| vals[*a].partial_cmp(&vals[*b]).unwrap());
+            for p in ix.windows(2) {
+                let (a, b) = (p[0], p[1]);
+                let ok = if vals[a] == vals[b] { w[a] == w[b] } else { w[a] > w[b] };
+                if !ok {
+                    return Some((format!("{} proportional_weights order", head), ctx(format!("objective {} has weight {}, objective {} has weight {}", vals[a], w[a], vals[b], w[b]))));
+                }
+            }
+            if normalize && (w.iter().sum::<f64>() - 1.0).abs() > 1e-9 {
+                return Some((format!("{} proportional_weights normalisation", head), ctx(format!("normalised weights sum to {}", w.iter().sum::<f64>()))));
+            }
+        }
+        let ranks = f::reverse_rank(&pop);
+        let mut distinct: Vec<f64> = vals.clone();
+        distinct.sort_by(|a, b| a.partial_cmp(b).unwrap());
+        distinct.dedup();
+        if ranks.len() != n {
+            return Some((format!("{} reverse_rank shape", head), ctx(format!("{} ranks", ranks.len()))));
+        }
+        for i in 0..n {
+            let want = distinct.partition_point(|d| *d < vals[i]) + 1;
+            if ranks[i] != want {
+                return Some((format!("{} reverse_rank", head), ctx(format!("individual {} (objective {}) has rank {}, expected {} (1 = lowest objective value, ties share a rank)", i, vals[i], ranks[i], want))));
+            }
+        }
+        None
+    });
+    match r {
+        Ok(v) => v,
+        Err(p) => Some((format!("{} panic", head), ctx(format!("panicked: {}", p.chars().take(200).collect::<String>())))),
+    }
+}
+
 fn populations(max_n: usize) -> Vec<Vec<TInd>> {
     let mut pops = vec![];
     for n in 0..=max_n {
@@ -503,6 +580,7 @@ fn check_pressure(s: &Sel, p: &[TInd], grid: usize, seed: u64) -> Option<(String
 pub fn run(rep: &mut Report) {
     let thorough = rep.tier == crate::engine::report::Tier::Thorough;
     rep.alpha("operators All, None, CloneSingle(k), FullyRandom(k), RandomWithoutRepetition(k), RouletteWheel(k, offset 0|0.5), StochasticUniversalSampling(k, offset 0|0.5), Tournament(k, size 1..n), LinearRank(k), ExponentialRank(k, 0.5), DERand/DEBest/DECurrentToBest(y = 1|2), DeterministicFitnessProportional(min,max) with k in 0..n+1");
+    rep.alpha("populations of 5000 and 70000 individuals through every operator; objective_bounds / proportional_weights / reverse_rank on 9000, 70000 (thorough 140000) individuals with the extremes placed around positions 2^12, 2^13 and 2^16");
     rep.alpha("populations: all sequences of length 0..N over objective grid {-1,0,1,+inf} with distinct tags (ties = different individuals with equal objective), positive-only populations over {2,3}, two larger populations for the DE selections");
     rep.alpha("environment: every generator word is a choice (default ChaCha stream word or one of the menu words), all tapes over the first D draws");
     rep.assume("inputs whose behaviour the documentation leaves open are outside the alphabet: empty populations for operators without an `# Errors` section, tournament size 0 or above the population size, DE selections on fewer than 2y+1 individuals");
@@ -561,7 +639,12 @@ pub fn run(rep: &mut Report) {
     let mut part = Part::new("selection.large-populations");
     part.caps_hit.push("large populations are checked on default generator streams of a few seeds, not exhaustively".to_string());
     let sizes: Vec<usize> = if thorough { vec![17, 60, 200, 800, 2000] } else { vec![17, 60, 200, 800] };
-    let jobs: Vec<(usize, usize, u32, u64)> = (0..11usize).flat_map(|w| sizes.iter().flat_map(move |n| [1u32, 3, *n as u32].into_iter().flat_map(move |k| (0..(if thorough { 4u64 } else { 2 })).map(move |sd| (w, *n, k, sd))))).collect();
+    let mut jobs: Vec<(usize, usize, u32, u64)> = (0..11usize).flat_map(|w| sizes.iter().flat_map(move |n| [1u32, 3, *n as u32].into_iter().flat_map(move |k| (0..(if thorough { 4u64 } else { 2 })).map(move |sd| (w, *n, k, sd))))).collect();
+    for w in 0..11usize {
+        for n in [5000usize, 70_000] {
+            jobs.push((w, n, 3, 0));
+        }
+    }
     let res: Vec<Option<(String, String)>> = jobs.par_iter().map(|(w, n, k, sd)| check_large(*w, *n, *k, seed + sd)).collect();
     for ((w, n, k, sd), r) in jobs.iter().zip(res) {
         part.transitions += 1;
@@ -570,6 +653,33 @@ pub fn run(rep: &mut Report) {
         part.outcome(format!("op{}", w));
         if let Some((sg, d)) = r {
             part.violate(sg, d, json!({"kind": "large", "which": w, "n": n, "k": k, "seed": seed + sd}));
+        }
+    }
+
+    // ... and the public building blocks on populations beyond the block sizes an implementation may use (2^12, 2^16)
+    let mut jobs: Vec<(usize, usize, usize, bool, u8)> = vec![];
+    for &n in &(if thorough { vec![9000usize, 70_000, 140_000] } else { vec![9000usize, 70_000] }) {
+        let marks: Vec<usize> = [0usize, 1, 4095, 4096, 4097, 8191, 8192, 8200, 65535, 65536, 65537, n - 2, n - 1].into_iter().filter(|p| *p < n).collect();
+        for &pmin in &marks {
+            for &pmax in &marks {
+                if pmin == pmax || (n > 9000 && !(pmin >= 65535 || pmax >= 65535 || (pmin + pmax) % 3 == 0)) {
+                    continue;
+                }
+                jobs.push((n, pmin, pmax, false, ((pmin + pmax) % 3) as u8));
+                if n == 9000 {
+                    jobs.push((n, pmin, pmax, true, 0));
+                }
+            }
+        }
+    }
+    let res: Vec<Option<(String, String)>> = jobs.par_iter().map(|(n, a, b, inf, l)| check_functional(*n, *a, *b, *inf, *l)).collect();
+    for ((n, a, b, inf, l), r) in jobs.iter().zip(res) {
+        part.transitions += 4;
+        part.traces += 1;
+        part.states += 1;
+        part.outcome(format!("functional:{}", n));
+        if let Some((sg, d)) = r {
+            part.violate(sg, d, json!({"kind": "functional", "n": n, "pmin": a, "pmax": b, "inf": inf, "layout": l}));
         }
     }
     rep.push(part);
@@ -633,6 +743,10 @@ fn parse_sel(s: &str) -> Result<Sel, String> {
 }
 
 pub fn replay(case: &Value) -> Result<Vec<(String, String)>, String> {
+    if case["kind"].as_str() == Some("functional") {
+        let u = |k: &str| case[k].as_u64().unwrap_or(0) as usize;
+        return Ok(check_functional(u("n"), u("pmin"), u("pmax"), case["inf"].as_bool().unwrap_or(false), u("layout") as u8).into_iter().collect());
+    }
     if case["kind"].as_str() == Some("large") {
         return Ok(check_large(case["which"].as_u64().unwrap_or(0) as usize, case["n"].as_u64().unwrap_or(17) as usize, case["k"].as_u64().unwrap_or(1) as u32, case["seed"].as_u64().unwrap_or(0)).into_iter().collect());
     }
